@@ -157,6 +157,9 @@ pub struct SeqStats {
 }
 
 pub const PER_CALL_LIMIT: isize = 48 << 20;
+/// pseudo-datagrams interpreted by `run_sequence` (they start with 0xFF: LCT version 15, never a valid packet)
+pub const MARKER_CLEANUP: &[u8] = b"\xFFVH-CLEANUP";
+pub const MARKER_REUSE_FDT_ID: &[u8] = b"\xFFVH-REUSE-FDT-ID";
 
 pub fn rx_config() -> RxConfig {
     RxConfig {
@@ -188,6 +191,14 @@ pub fn run_sequence(
     let mut aborted = false;
     alloc::reset_peak();
     for (i, b) in seq.iter().enumerate() {
+        if b.as_slice() == MARKER_CLEANUP {
+            // not a datagram: the application calls cleanup() here
+            let _ = util::guarded(|| rx.cleanup(now));
+            continue;
+        }
+        if b.as_slice() == MARKER_REUSE_FDT_ID {
+            continue;
+        }
         let before = alloc::live();
         let r = util::guarded(|| util::with_budget(PUSH_BUDGET, || rx.push(endpoint, b, now)));
         st.steps = st.steps.max(flute::verif::used());
@@ -252,6 +263,15 @@ pub fn run_sequence(
     let mut fresh_tsi = base_tsi + 1000;
     while used_tsi.contains(&fresh_tsi) {
         fresh_tsi += 17;
+    }
+    // sequences that ask for it: the valid session on the same TSI REUSES the first FDT instance id of the hostile
+    // sequence (a restarted sender, a carousel repetition of an instance that failed to decode)
+    // Only when the receiver REJECTED the hostile instance (a push returned Err): an instance it accepted - however odd -
+    // is a received instance, and a later one with the same id is legitimately taken for a repetition of it.
+    if seq.iter().any(|b| b.as_slice() == MARKER_REUSE_FDT_ID) && st.err > 0 {
+        if let Some(x) = used_fdt.first() {
+            fdt_id = *x;
+        }
     }
     for (which, tsi, fid) in [("same_tsi", base_tsi, fdt_id), ("fresh_tsi", fresh_tsi, fdt_id + 1)] {
         let probe = make_probe(tsi, toi0, fid, seed);
